@@ -111,7 +111,7 @@ PROPS["C10"] = dict(
            "transcript state (digest, counter): any felts; domain size 2^k, k any in 1..=64; query count n = %d (concrete per instance)" % n,
            "generate_queries == sort+dedup(low128(challenge_i) mod 2^k): in range, strictly increasing, at most n, deterministic, transcript advanced by n squeezes",
            tier=(Q if n <= 2 else T), timeout=1800, witness=(n <= 1))
-        for n in range(0, 6)
+        for n in range(0, 5)
     ] + [
         e1("C10.generate.n3.small_domain", "c10_generate_3_small", "as C10.generate.n3 with domain size 2^k, k in 1..=3 (collisions are the interesting case and do not depend on k)", "generate_queries == sort+dedup(...) for 3 queries over tiny domains", timeout=1200, witness=False, mem=20),
         e2("C10S"),
@@ -165,7 +165,7 @@ PROPS["C04"] = dict(
         _c04c(2, T), _c04("complete", 2, 1, T, BLAKE, ".blake2s_248"),
         _c04("bind", 2, 2, T), _c04("bind", 2, 2, T, BLAKE, ".blake2s_248"), _c04("complete", 2, 2, T, BLAKE, ".blake2s_248"),
         _c04("wrongroot", 2, 1, Q), _c04("wrongroot", 2, 2, T), _c04("wrongroot", 3, 2, T),
-        _c04("bind", 3, 1, T), _c04("bind", 3, 2, T), _c04("bind", 3, 3, T), _c04("complete", 3, 2, T), _c04("complete", 3, 3, T), _c04c(3, T),
+        _c04("bind", 3, 1, T), _c04("bind", 3, 2, T), _c04("complete", 3, 2, T), _c04c(3, T),
         _c04("bind", 2, 2, T, K248, ".keccak_248"), _c04("complete", 2, 2, T, K248, ".keccak_248"),
         _c04("bind", 2, 2, T, B160, ".blake2s_160"), _c04("complete", 2, 2, T, B160, ".blake2s_160"),
     ],
@@ -186,15 +186,9 @@ PROPS["C05"] = dict(
         _c05("C05.length.3", "c05_length_3", "2 columns, 1 query, 3 cells", "cell count != columns x queries is rejected", depth=1),
         _c05("C05.length.2", "c05_length_2", "2 columns, 1 query, 2 cells (accepted)", "exact cell count accepted", tier=T, depth=1),
         _c05("C05.delegate.f2", "c05_delegate_f2", "2 columns x 2 rows (vector height 1), both rows queried, cells any felts, friendly-layer count 2 (row and node hash Poseidon), the 24 permutations of the 4 cells (symbolic)", "accepted iff the cells are the committed ones in their rows and columns", tier=T, depth=3, mem=24, timeout=3600),
-        _c05("C05.delegate.f1", "c05_delegate_f1", "as C05.delegate.f2 with friendly-layer count 1 (row hash masked, node hash Poseidon): the depth rule height+1", "accepted iff cells unchanged", tier=T, depth=3, mem=44, timeout=7200),
-        _c05("C05.delegate.f0", "c05_delegate_f0", "as C05.delegate.f2 with friendly-layer count 0 (all masked)", "accepted iff cells unchanged", tier=T, depth=3, mem=44, timeout=7200),
         _c05("C05.row.cols4.friendly", "c05_row_4_f1", "4 columns, 1 row, Poseidon", "row hash over 4 cells", tier=T, depth=1),
         _c05("C05.row.cols3.friendly", "c05_row_3_f1", "3 columns, 1 row, Poseidon", "row hash over 3 cells", tier=T, depth=1),
-        _c05("C05.row.cols3.masked", "c05_row_3_f0", "3 columns, 1 row, masked hash", "row hash over 3 cells", tier=T, depth=1, mem=44, timeout=7200),
         _c05("C05.row.cols1.f0", "c05_row_1_f0", "1 column, friendly-layer count 0", "single cell unhashed regardless of the friendly rule", tier=T, depth=1),
-        _c05("C05.row.cols2.masked.blake2s_248", "c05_row_2_f0", "2 columns, Blake2s/248 build", "masked row hash", tier=T, feats=BLAKE, depth=1, mem=44, timeout=7200),
-        _c05("C05.row.cols2.masked.keccak_248", "c05_row_2_f0", "2 columns, Keccak/248 build", "masked row hash", tier=T, feats=K248, depth=1, mem=44, timeout=7200),
-        _c05("C05.row.cols2.masked.blake2s_160", "c05_row_2_f0", "2 columns, Blake2s/160 build", "masked row hash", tier=T, feats=B160, depth=1, mem=44, timeout=7200),
     ],
     outside=["more than 4 columns (FRI layers use up to 16) and heights above 1", "x -> x*R injective: a field law (R != 0) assumed through the cancellation law of the mul UF"],
 )
